@@ -339,23 +339,38 @@ class HeapMixin:
         return a.t == inj
 
     def inject(self, v):
-        """typed value -> Any (uninterpreted injection per kind)"""
+        """typed value -> Any. The injections are made injective (and kind-disjoint) by instance axioms with inverse functions."""
+        run = self.run
+
+        def inj(fname, sort, term, kind):
+            t = z3.Function(fname, sort, AnySort)(term)
+            key = t.get_id()
+            if key not in run.inj_seen:
+                run.inj_seen.add(key)
+                run._keep.append(t)
+                run.assume(z3.Function(fname + "^-1", AnySort, sort)(t) == term, persist=True)
+                run.assume(z3.Function("any_kind", AnySort, z3.IntSort())(t) == kind, persist=True)
+            return t
         if isinstance(v, VAny):
             return v.t
         if isinstance(v, VInt):
-            return z3.Function("any_of_int", z3.IntSort(), AnySort)(v.t)
+            return inj("any_of_int", z3.IntSort(), v.t, 1)
         if isinstance(v, VReal):
-            return z3.Function("any_of_real", z3.RealSort(), AnySort)(v.t)
+            return inj("any_of_real", z3.RealSort(), v.t, 2)
         if isinstance(v, VBool):
-            return z3.Function("any_of_bool", z3.BoolSort(), AnySort)(v.t)
+            return inj("any_of_bool", z3.BoolSort(), v.t, 3)
         if isinstance(v, VStr):
-            return z3.Function("any_of_str", z3.StringSort(), AnySort)(v.t)
+            return inj("any_of_str", z3.StringSort(), v.t, 4)
         if isinstance(v, VNone):
-            return z3.Const("any_none", AnySort)
+            t = z3.Const("any_none", AnySort)
+            if "none" not in run.inj_seen:
+                run.inj_seen.add("none")
+                run.assume(z3.Function("any_kind", AnySort, z3.IntSort())(t) == 0, persist=True)
+            return t
         if isinstance(v, VEnum):
-            return z3.Function("any_of_" + v.ename, v.t.sort(), AnySort)(v.t)
+            return inj("any_of_" + v.ename, v.t.sort(), v.t, 5)
         if isinstance(v, VRef):
-            return z3.Function("any_of_ref", z3.IntSort(), AnySort)(z3.IntVal(v.oid))
+            return inj("any_of_ref", z3.IntSort(), z3.IntVal(self.run.base_oid(v.oid)), 6)
         if isinstance(v, VCallback):
             return z3.Const(f"any_cb:{v.name}", AnySort)
         if isinstance(v, VClass):
@@ -363,8 +378,17 @@ class HeapMixin:
         if isinstance(v, VTuple):
             t = z3.Const("any_unit", AnySort)
             f = z3.Function("any_pair", AnySort, AnySort, AnySort)
+            fst = z3.Function("any_fst", AnySort, AnySort)
+            snd = z3.Function("any_snd", AnySort, AnySort)
             for x in v.items:
-                t = f(t, self.inject(x))
+                xi = self.inject_deep(x) if hasattr(self, "inject_deep") else self.inject(x)
+                nt = f(t, xi)
+                key = nt.get_id()
+                if key not in run.inj_seen:
+                    run.inj_seen.add(key)
+                    run._keep.append(nt)
+                    run.assume(z3.And(fst(nt) == t, snd(nt) == xi, z3.Function("any_kind", AnySort, z3.IntSort())(nt) == 7), persist=True)
+                t = nt
             return t
         raise E.Unsupported(f"inject {v!r}")
 
@@ -442,9 +466,13 @@ class HeapMixin:
             return
         if r.arr is not None:
             try:
-                r.arr = z3.Store(r.arr, r.length, self.term_of(v, r.elem))
+                tv = self.term_of(v, r.elem)
+                r.arr = z3.Store(r.arr, r.length, tv)
+                if r.mem is not None:
+                    r.mem = z3.Store(r.mem, tv, z3.BoolVal(True))
             except (E.Unsupported, z3.Z3Exception):
                 r.arr = None
+                r.mem = None
                 r.elem = ("any",)
         if r.arr is None:
             r.appended.append((E.simp(r.length + (r.shift if not isinstance(r.shift, int) or r.shift else 0)) if False else E.simp(r.length), v))
@@ -517,22 +545,22 @@ class HeapMixin:
         for ok, ov in reversed(r.over):
             if self.run.decide(kt == ok, "key equals stored key"):
                 return ov
+        base = r.valsym or r.sym
+        kt = E.simp(kt)
+        nm = f"{base}[{kt}]"
+        if nm not in self.run.sym_oids and (nm + "#len") not in self.run.inputs:
+            # aliasing: a symbolic key may equal a key under which the value is already materialised
+            seen = self.run.elem_index.setdefault(base, [])
+            for (qterm, qname) in seen:
+                if qterm.sort() == kt.sort() and self.run.decide(kt == qterm, f"{nm} is {qname}"):
+                    nm = qname
+                    break
+            else:
+                seen.append((kt, nm))
         if r.vtype[0] == "obj":
-            base = r.valsym or r.sym
-            kt = E.simp(kt)
-            nm = f"{base}[{kt}]"
-            if nm not in self.run.sym_oids:
-                # aliasing: a symbolic key may equal a key under which the value object is already materialised
-                seen = self.run.elem_index.setdefault(base, [])
-                for (qterm, qname) in seen:
-                    if qterm.sort() == kt.sort() and self.run.decide(kt == qterm, f"{nm} is {qname}"):
-                        nm = qname
-                        break
-                else:
-                    seen.append((kt, nm))
             cls = r.vtype[1]
             return self.sym_ref(nm, "obj", cls, lambda: ObjRec(cls, {}, sym=nm))
-        return self.fresh(r.vtype, f"{r.valsym or r.sym}[{kt}]")
+        return self.fresh(r.vtype, nm)
 
     def dict_set(self, ref, k, v):
         r = self.run.rec(ref.oid)
